@@ -187,7 +187,7 @@ func runChain(rec *beaconrec.Recorder, cfg chainCfg, name string, rng *rand.Rand
 	}
 	c.Runner = rec
 	meta := map[string]interface{}{"scenario": name}
-	if err := rec.InitWithKeys(spec, c.State, meta, keyTable(c.Keys, keyUniverse)); err != nil {
+	if err := initHistory(rec, c, cfg.preset, g, meta); err != nil {
 		return err
 	}
 	sc := chain.NewScenario(c)
@@ -212,4 +212,20 @@ func runChain(rec *beaconrec.Recorder, cfg chainCfg, name string, rng *rand.Rand
 		}
 	}
 	return nil
+}
+
+// initHistory writes the Init event.  When a fork is scheduled at epoch 0 the genesis state was upgraded in
+// place by chain.NewGenesis (zrnt's UpgradeMaybe at slot 0); the same genesis is then built once more under
+// a schedule without forks to obtain the pre-upgrade state, and the upgrade itself is validated.
+func initHistory(rec *beaconrec.Recorder, c *chain.Chain, preset string, g chain.GenesisOpts, meta map[string]interface{}) error {
+	keys := keyTable(c.Keys, keyUniverse)
+	if c.Spec.ALTAIR_FORK_EPOCH != 0 {
+		return rec.InitWithKeys(c.Spec, c.State, meta, keys)
+	}
+	g.Keys, g.Engine = nil, nil
+	pre, err := chain.NewGenesis(chain.NewSpec(preset, chain.Phase0Only), g)
+	if err != nil {
+		return err
+	}
+	return rec.InitUpgraded(c.Spec, pre.State, c.State, meta, keys)
 }
